@@ -3,6 +3,7 @@ import CallbagModel.Script
 import CallbagModel.Ops.Take
 import CallbagModel.Ops.Merge
 import CallbagModel.Ops.Combine
+import CallbagModel.Ops.Compose
 import Std.Data.HashSet
 /-!
 # Exhaustive exploration of thread interleavings on the model (the search side of C18 / C19)
@@ -71,6 +72,9 @@ def parLine (line : String) : String :=
       | ["take0", m] => m.toNat?.bind fun m => runScenario (Take.machine Int m false) fmtInt 1 threads true
       | ["merge", n] => n.toNat?.bind fun n => runScenario (Merge.machine Int n) fmtInt n threads true
       | ["combine", n] => n.toNat?.bind fun n => runScenario (Combine.machine Int n) fmtTuple n threads true
+      | ["takemerge", m, n] => match m.toNat?, n.toNat? with
+        | some m, some n => runScenario (compose (Merge.machine Int n) (Take.machine Int m)) fmtInt n threads true
+        | _, _ => none
       | _ => none
     match r with
     | some t => s!"{line.trimAscii.toString} # {t}"
